@@ -6,30 +6,33 @@ and restores the usage extensionally.
 namespace Eru.Book
 open Eru
 
-/-- Incr then Decr of the same workload resources: accepted, and the usage is restored
-    on every component (zero entries treated extensionally) -/
-theorem incr_decr_restores (n n' : NodeInfo) (hw : WFNode n) (hv : Valid n) (ws : List WorkloadRes) (hws : ∀ w ∈ ws, WFW w)
-    (h : setNodeResourceUsage n none ws true true = .ok n') :
-    ∃ n'', setNodeResourceUsage n' none ws true false = .ok n'' ∧ UsageEq n''.usage n.usage ∧ n''.capacity = n.capacity := by
-  obtain ⟨hc, hw', hv', a, b, c, d, hkeys'⟩ := set_usage_spec n n' hw ws hws true h
-  obtain ⟨a2, b2, c2, d2, e2, f2, g2, _⟩ := foldl_calc false ws n'.usage hw'.uc hw'.un hws
+theorem sg_not (incr : Bool) : sg (!incr) = - sg incr := by cases incr <;> rfl
+
+/-- Applying workload resources (Incr or Decr) and then applying the same resources the other
+    way: accepted, and the usage is restored on every component (zero entries treated
+    extensionally) -/
+theorem apply_unapply_restores (incr : Bool) (n n' : NodeInfo) (hw : WFNode n) (hv : Valid n) (ws : List WorkloadRes) (hws : ∀ w ∈ ws, WFW w)
+    (h : setNodeResourceUsage n none ws true incr = .ok n') :
+    ∃ n'', setNodeResourceUsage n' none ws true (!incr) = .ok n'' ∧ UsageEq n''.usage n.usage ∧ n''.capacity = n.capacity := by
+  obtain ⟨hc, hw', hv', a, b, c, d, hkeys'⟩ := set_usage_spec n n' hw ws hws incr h
+  obtain ⟨a2, b2, c2, d2, e2, f2, g2, _⟩ := foldl_calc (!incr) ws n'.usage hw'.uc hw'.un hws
   have hvn := (valid_iff n hw).1 hv
   have hvn' := (valid_iff n' hw').1 hv'
-  have hvalid : Valid { n' with usage := ws.foldl (fun acc w => if false then acc.add w.toNodeRes else acc.sub w.toNodeRes) n'.usage } := by
-    have hwm : WFNode { n' with usage := ws.foldl (fun acc w => if false then acc.add w.toNodeRes else acc.sub w.toNodeRes) n'.usage } :=
+  have hvalid : Valid { n' with usage := ws.foldl (fun acc w => if (!incr) then acc.add w.toNodeRes else acc.sub w.toNodeRes) n'.usage } := by
+    have hwm : WFNode { n' with usage := ws.foldl (fun acc w => if (!incr) then acc.add w.toNodeRes else acc.sub w.toNodeRes) n'.usage } :=
       ⟨hw'.cc, hw'.cn, e2, f2⟩
     rw [valid_iff _ hwm]
     refine ⟨hvn'.1, hvn'.2.1, ?_, ?_⟩
     · intro k hk
       have hk' : k ∈ n'.usage.cpuMap.keys := by
-        rcases (mem_keys_foldl_calc false ws n'.usage k).1 hk with h1 | h1
+        rcases (mem_keys_foldl_calc (!incr) ws n'.usage k).1 hk with h1 | h1
         · exact h1
         · exact (hkeys' k).2 (Or.inr h1)
       obtain ⟨p1, p2, p3⟩ := hvn'.2.2.1 k hk'
       refine ⟨p1, p2, ?_⟩
       simp only at c2 ⊢
       rw [c2 k, c k]
-      simp only [sg, if_true, Bool.false_eq_true, if_false]
+      rw [sg_not, Int.neg_mul]
       by_cases hku : k ∈ n.usage.cpuMap.keys
       · have := (hvn.2.2.1 k hku).2.2
         rw [hc] at p2 p3 ⊢; omega
@@ -37,16 +40,26 @@ theorem incr_decr_restores (n n' : NodeInfo) (hw : WFNode n) (hv : Valid n) (ws 
     · intro hn id hid
       simp only at d2 ⊢
       rw [d2 id, d id]
-      simp only [sg, if_true, Bool.false_eq_true, if_false]
+      rw [sg_not, Int.neg_mul]
       have := hvn.2.2.2 (by rw [← hc]; exact hn) id (by rw [← hc]; exact hid)
       rw [hc]; omega
-  obtain ⟨n'', h''⟩ := set_usage_ok_of_valid n' hw' ws hws false hvalid
-  obtain ⟨hc'', _, _, a3, b3, c3, d3, _⟩ := set_usage_spec n' n'' hw' ws hws false h''
+  obtain ⟨n'', h''⟩ := set_usage_ok_of_valid n' hw' ws hws (!incr) hvalid
+  obtain ⟨hc'', _, _, a3, b3, c3, d3, _⟩ := set_usage_spec n' n'' hw' ws hws (!incr) h''
   refine ⟨n'', h'', ⟨?_, ?_, ?_, ?_⟩, by rw [hc'', hc]⟩
-  · rw [a3, a]; simp only [sg, if_true, Bool.false_eq_true, if_false]; omega
-  · rw [b3, b]; simp only [sg, if_true, Bool.false_eq_true, if_false]; omega
-  · intro k; rw [c3, c]; simp only [sg, if_true, Bool.false_eq_true, if_false]; omega
-  · intro k; rw [d3, d]; simp only [sg, if_true, Bool.false_eq_true, if_false]; omega
+  · rw [a3, a]; rw [sg_not, Int.neg_mul]; omega
+  · rw [b3, b]; rw [sg_not, Int.neg_mul]; omega
+  · intro k; rw [c3, c]; rw [sg_not, Int.neg_mul]; omega
+  · intro k; rw [d3, d]; rw [sg_not, Int.neg_mul]; omega
+
+theorem incr_decr_restores (n n' : NodeInfo) (hw : WFNode n) (hv : Valid n) (ws : List WorkloadRes) (hws : ∀ w ∈ ws, WFW w)
+    (h : setNodeResourceUsage n none ws true true = .ok n') :
+    ∃ n'', setNodeResourceUsage n' none ws true false = .ok n'' ∧ UsageEq n''.usage n.usage ∧ n''.capacity = n.capacity :=
+  apply_unapply_restores true n n' hw hv ws hws h
+
+theorem decr_incr_restores (n n' : NodeInfo) (hw : WFNode n) (hv : Valid n) (ws : List WorkloadRes) (hws : ∀ w ∈ ws, WFW w)
+    (h : setNodeResourceUsage n none ws true false = .ok n') :
+    ∃ n'', setNodeResourceUsage n' none ws true true = .ok n'' ∧ UsageEq n''.usage n.usage ∧ n''.capacity = n.capacity :=
+  apply_unapply_restores false n n' hw hv ws hws h
 
 end Eru.Book
 
